@@ -16,7 +16,7 @@ FLAGS = os.environ.get("MUT_TEST_FLAGS", "")
 # MUT_BASE=<refactoring diff>: the change was made on top of that behaviour-preserving commit; "clean tree"
 # below is then /repo HEAD plus the refactoring, and the stored patch is the combined diff against /repo HEAD
 BASE = os.environ.get("MUT_BASE", "")
-ENV = dict(os.environ, GOFLAGS="-mod=readonly", GOPROXY="off", GOSUMDB="off", GOTOOLCHAIN="local")
+ENV = dict(os.environ, GOFLAGS="-mod=readonly -buildvcs=false", GOPROXY="off", GOSUMDB="off", GOTOOLCHAIN="local")
 
 
 def sh(cmd, cwd, timeout=1500):
@@ -48,6 +48,7 @@ def main():
         rc, base = sh("go test -vet=off -count=1 ./... 2>&1", wt)
         base_fail = failing(base)
         ran.append("clean tree: go test -vet=off -count=1 ./... -> failing: %s" % base_fail)
+        os.makedirs(os.path.dirname(os.path.join(wt, demo_path)), exist_ok=True)
         shutil.copy(demo, os.path.join(wt, demo_path))
         pkg = "./" + os.path.dirname(demo_path)
         rc_clean, out_clean = sh("go test -vet=off -count=1 %s %s 2>&1" % (FLAGS, pkg), wt)
